@@ -103,6 +103,26 @@ def nameCmpFrom (a b : Bytes) : Nat → Nat → Ordering
 
 def nameCmp (a b : Bytes) : Ordering := nameCmpFrom a b (min a.size b.size + 1) 0
 
+/-- `Ord::cmp` with its two unchecked accesses made explicit: iteration `i` of
+    `for i in 0..self.len().min(other.len())` performs `self.name.as_bytes().get_unchecked(i)` and
+    `other.name.as_bytes().get_unchecked(i)`; each is undefined behaviour unless `i` is in range of its own
+    operand.  This is what the driver runs for the `cmp` stream; `C17.name_cmp_no_ub` shows the `ub`
+    outcome is unreachable and that the value is `nameCmp`. -/
+def nameCmpUFrom (a b : Bytes) : Nat → Nat → Res Ordering
+  | 0, _ => .ok (compare a.size b.size)
+  | fuel + 1, i =>
+    if i < min a.size b.size then
+      if i < a.size then
+        if i < b.size then
+          let l := (lowerByte (a.getD i 0)).toNat
+          let r := (lowerByte (b.getD i 0)).toNat
+          if l < r then .ok .lt else if l > r then .ok .gt else nameCmpUFrom a b fuel (i + 1)
+        else .ub
+      else .ub
+    else .ok (compare a.size b.size)
+
+def nameCmpU (a b : Bytes) : Res Ordering := nameCmpUFrom a b (min a.size b.size + 1) 0
+
 /-- `Hash::hash`: the exact byte sequence fed to the hasher (`write_u8` per byte) -/
 def nameHashFeed (a : Bytes) : List UInt8 := a.toList.map lowerByte
 
